@@ -154,7 +154,7 @@ let run_recv toks =
   match toks with
   | [_; blk; ws; tmo; rep; clean; fails; evs] ->
     let cfg = { r_blk = n_of_dec blk; r_ws = n_of_dec ws; r_tmo = n_of_dec tmo; r_rep = n_of_dec rep;
-                r_clean = (clean = "1"); r_fails = parse_fails fails } in
+                r_clean = (clean.[0] = '1'); r_fails = parse_fails fails } in
     snap_cache := ([], 0, fnv_init);
     let buf = Buffer.create 4096 in
     let emit out = List.iter (fun a ->
@@ -662,6 +662,22 @@ let mon_srv prop case impl =
              | _ -> ()
            end
          | _ -> ()) recs
+     | "C12" ->
+       (* every transfer of an endpoint yields its own file, also when the endpoint ran other transfers before *)
+       List.iteri (fun i r ->
+         match decoded r with
+         | Some (Rrq (name, _, _)) when i = 0 || true ->
+           if starts_with r.sxfer "dl=" && r.sxfer <> "dl=-" && not (starts_with r.sxfer "dl=error") then begin
+             (match stat init (join sdir (convert_file_path name)) with
+              | Some (NFile content) ->
+                let body = String.sub r.sxfer 3 (String.length r.sxfer - 3) in
+                let fpr = List.hd (String.split_on_char '/' body) in
+                if fpr <> fp_text content || not (ends_with r.sxfer "/done") then
+                  (if not (List.mem fpr uploads) then bad "transfer-of-a-reused-endpoint-does-not-yield-its-file")
+              | _ -> ())
+           end else if starts_with r.sxfer "dl=error" then bad "accepted-download-aborted-by-the-server"
+         | _ -> ()) recs;
+       check_uploads ()
      | "C13" ->
        let clean = not (has_flag flags 'k') in
        (* an accepted upload that the peer aborts with ERROR: removed (clean-on-error) or kept as a prefix (here: empty) *)
@@ -708,7 +724,7 @@ let mon_srv prop case impl =
            | _ -> ()) recs
      | _ -> ());
     match List.filter (fun m -> not (starts_with m "known:")) !fail, !fail with
-    | [], [] -> (if List.mem prop ["C02"; "C03"; "C05"; "C06"; "C09"; "C13"; "C14"; "C16"] then "pass" else "skip")
+    | [], [] -> (if List.mem prop ["C02"; "C03"; "C05"; "C06"; "C09"; "C12"; "C13"; "C14"; "C16"] then "pass" else "skip")
     | [], k :: _ -> k
     | m :: _, _ -> "fail:" ^ m
     end
@@ -988,6 +1004,9 @@ let run_cfg toks =
      | CErr k -> "err " ^ cerr_text k
      | CHelp -> "help")
   | _ -> failwith "bad cfg case"
+let run_ccfg_ref : (string list -> string) ref = ref (fun _ -> "unset")
+let run_ccfg_fwd toks = !run_ccfg_ref toks
+
 let run_cfgperm toks =
   match toks with
   | [_; cwd; e; i; groups; perms] ->
@@ -997,6 +1016,16 @@ let run_cfgperm toks =
       let args = String.concat "," (List.map (fun t -> if t = "tftpd" then hex_of_bytes (bytes_of_string "tftpd") else t) parts) in
       run_cfg ["cfg"; cwd; e; i; args]) (String.split_on_char ';' perms))
   | _ -> failwith "bad cfgperm case"
+
+let run_ccfgperm toks =
+  match toks with
+  | [_; cwd; e; i; groups; perms] ->
+    let gs = if groups = "-" then [||] else Array.of_list (String.split_on_char '|' groups) in
+    String.concat " | " (List.map (fun perm ->
+      let parts = if perm = "-" then [] else List.map (fun k -> gs.(int_of_string k)) (String.split_on_char '.' perm) in
+      let args = match parts with [] -> "-" | _ -> String.concat "," parts in
+      run_ccfg_fwd ["ccfg"; cwd; e; i; args]) (String.split_on_char ';' perms))
+  | _ -> failwith "bad ccfgperm case"
 
 (* C17 on implementation results: all orders give the same configuration, or all fail *)
 let mon_cfgperm impl =
@@ -1019,6 +1048,19 @@ let mon_cfg_dup case impl =
     let argv = if groups = "-" then [] else List.concat_map (fun g -> List.map untok (String.split_on_char ',' g)) (String.split_on_char '|' groups) in
     if List.exists accepted (String.split_on_char '|' impl) && not (okDupArgs argv) then "fail:duplicate-packets>=255-accepted" else "pass"
   | _ -> "skip"
+
+(* C17: the receive / send directories fall back to -d exactly when not given explicitly *)
+let mon_cfg_fallback (argv : n list list) (res : string) : string =
+  let has names = List.exists (fun a -> List.mem (string_of_bytes a) names) argv in
+  if not (starts_with res "ok") then "pass" else begin
+    let field k = List.find_map (fun t -> if starts_with t (k ^ "=") then Some (String.sub t (String.length k + 1) (String.length t - String.length k - 1)) else None) (words res) in
+    match field "dir", field "rdir", field "sdir" with
+    | Some d, Some r, Some sd ->
+      if not (has ["-rd"; "--receive-directory"]) && r <> d then "fail:receive-directory-does-not-fall-back-to-the-directory"
+      else if not (has ["-sd"; "--send-directory"]) && sd <> d then "fail:send-directory-does-not-fall-back-to-the-directory"
+      else "pass"
+    | _ -> "pass"
+  end
 
 let run_ccfg toks =
   match toks with
@@ -1190,7 +1232,7 @@ let mon_recv prop case impl =
     let (items, ending, file) = parse_trace impl in
     let final = if file = "absent" || file = "" then None else parse_snap file in
     let evl = parse_events evs in
-    let v = okRecv (n_of_dec blk) (n_of_dec ws) (n_of_dec rep) (clean = "1") (n_of_dec tmo)
+    let v = okRecv (n_of_dec blk) (n_of_dec ws) (n_of_dec rep) (clean.[0] = '1') (n_of_dec tmo)
               (mevs_of evl None) items (tend_of ending) final in
     let long = List.length evl >= 65000 in
     (match prop with
@@ -1229,12 +1271,29 @@ let run_mon (line : string) : string =
              | "bin" :: "xfer" :: _ -> if prop = "C14" then (if impl = "res=0 same=1" then "pass" else "fail:binaries-do-not-interoperate-byte-exactly") else "skip"
              | "conc" :: _ -> if prop = "C12" || prop = "C05" then mon_conc prop case impl else "skip"
              | "pair" :: _ -> if prop = "C04" || prop = "C14" || prop = "C16" then mon_pair prop case impl else "skip"
+             | ["cfgperm"; _; _; _; groups; _] when prop = "C17" ->
+               (match mon_cfgperm impl with
+                | "pass" ->
+                  (match mon_cfg_dup case impl with
+                   | "pass" ->
+                     let argv = if groups = "-" then [] else List.concat_map (fun g -> List.map untok (String.split_on_char ',' g)) (String.split_on_char '|' groups) in
+                     List.fold_left (fun acc r -> if acc <> "pass" then acc else mon_cfg_fallback argv (String.trim r)) "pass" (String.split_on_char '|' impl)
+                   | v -> v)
+                | v -> v)
              | "cfgperm" :: _ -> if prop = "C17" then (match mon_cfgperm impl with "pass" -> mon_cfg_dup case impl | v -> v)
                                  else if prop = "C16" then mon_cfg_dup case impl else "skip"
-             | "cfg" :: _ -> if prop = "C17" || prop = "C16" then mon_cfg_dup case impl else "skip"
+             | ["cfg"; _; _; _; args] ->
+               if prop = "C17" then
+                 (match mon_cfg_dup case impl with
+                  | "pass" -> mon_cfg_fallback (if args = "-" then [] else List.map untok (String.split_on_char ',' args)) impl
+                  | v -> v)
+               else if prop = "C16" then mon_cfg_dup case impl else "skip"
+             | "ccfgperm" :: _ -> if prop = "C17" then mon_cfgperm impl else "skip"
              | "win" :: _ -> if prop = "C18" then (if String.trim (run_win (words case)) = String.trim impl then "pass" else "fail:differs-from-the-verified-queue-specification") else "skip"
              | _ -> "skip"))
   | _ -> "fail:bad-monitor-line"
+
+let () = run_ccfg_ref := run_ccfg
 
 let run_line (line : string) : string =
   if String.length line > 4 && String.sub line 0 4 = "mon\t" then run_mon line else
@@ -1253,6 +1312,7 @@ let run_line (line : string) : string =
   | "cfg" :: _ -> run_cfg toks
   | "cfgperm" :: _ -> run_cfgperm toks
   | "ccfg" :: _ -> run_ccfg toks
+  | "ccfgperm" :: _ -> run_ccfgperm toks
   | "dec" :: _ -> run_dec toks
   | "enc" :: _ -> run_enc toks
   | "opc" :: _ -> run_opc toks
